@@ -25,10 +25,12 @@ from .core import Sym, SymBool, toz
 
 
 class Claim:
-    __slots__ = ('name', 'expr', 'kind', 'core', 'meta', 'key', 'lemma')
+    __slots__ = ('name', 'expr', 'kind', 'core', 'meta', 'key', 'lemma', 'hyps', 'atoms')
 
     def __init__(self, name, expr, kind, core_=True, meta=None, key=None):
         self.lemma = False
+        self.hyps = None
+        self.atoms = None
         self.name = name
         self.expr = expr
         self.kind = kind
@@ -86,11 +88,11 @@ class Env:
         return Env.lor(Env.lnot(a), b)
 
     # convenience
-    def pos(self, name, actual=None, hi=None):
-        return self.real(name, lo=0, hi=hi, actual=actual)
+    def pos(self, name, actual=None, hi=None, nominal=None):
+        return self.real(name, lo=0, hi=hi, actual=actual, nominal=nominal)
 
-    def nonneg(self, name, actual=None, hi=None):
-        return self.real(name, lo=0, lo_strict=False, hi=hi, actual=actual)
+    def nonneg(self, name, actual=None, hi=None, nominal=None):
+        return self.real(name, lo=0, lo_strict=False, hi=hi, actual=actual, nominal=nominal)
 
     def vec(self, prefix, n, **kw):
         a = _np.empty(n, dtype=object)
@@ -109,19 +111,22 @@ class SymEnv(Env):
         self.claims = []
         self.inputs = {}       # name -> z3 const
         self.actuals = {}      # name -> float (value of the real constructed object)
+        self.nominals = {}     # name -> float (a typical value: only a hint for counterexample replay)
         self.witnesses = []
 
     @property
     def ctx(self):
         return core.CTX
 
-    def real(self, name, lo=None, hi=None, lo_strict=True, hi_strict=False, actual=None):
+    def real(self, name, lo=None, hi=None, lo_strict=True, hi_strict=False, actual=None, nominal=None):
         if name in self.inputs:
             raise RuntimeError('duplicate input name ' + name)
         v = z3.Real(name)
         self.inputs[name] = v
         if actual is not None:
             self.actuals[name] = float(actual)
+        if nominal is not None:
+            self.nominals[name] = float(nominal)
         c = core.CTX
         if lo is not None:
             c.assumptions.append(v > toz(lo) if lo_strict else v >= toz(lo))
@@ -184,11 +189,23 @@ class SymEnv(Env):
         """The path reached a state that violates the property outright."""
         self._add(name, z3.BoolVal(False), 'bool', core, {'why': why}, key)
 
-    def lemma(self, name, cond):
+    def lemma(self, name, cond, key=None):
         """An intermediate claim: proved like any other claim and, once proved, available as
         a hypothesis to the claims that follow it on this path (sound lemma chaining)."""
-        self.holds(name, cond)
+        self.holds(name, cond, key=key)
         self.claims[-1].lemma = True
+
+    def derive(self, name, cond, hyps, atoms, key=None, lemma=False):
+        """Final step of a proof script: `cond` is proved from the listed hypotheses only (each
+        must be an assumption of the harness or a claim/lemma made earlier on this path -- the
+        framework checks that), with the listed sub-terms replaced by fresh variables
+        (abstraction: sound for proofs).  If that small query fails the claim is decided
+        the ordinary way under the full path condition."""
+        self.holds(name, cond, key=key)
+        cl = self.claims[-1]
+        cl.hyps = [h.e if isinstance(h, SymBool) else (z3.BoolVal(bool(h)) if isinstance(h, (bool, _np.bool_)) else h) for h in hyps]
+        cl.atoms = [toz(a) for a in atoms]
+        cl.lemma = lemma
 
     def patch(self, modules, overrides=None, extra=None, sym_extra=None):
         """`extra`: stubs of the environment ((module, name) -> value) applied in both
@@ -212,7 +229,7 @@ class ReplayEnv(Env):
         self.rel_tol = rel_tol
         self.used = set()
 
-    def real(self, name, lo=None, hi=None, lo_strict=True, hi_strict=False, actual=None):
+    def real(self, name, lo=None, hi=None, lo_strict=True, hi_strict=False, actual=None, nominal=None):
         if name not in self.values:
             raise ReplayMismatch('input %s not in model' % name)
         self.used.add(name)
@@ -259,8 +276,11 @@ class ReplayEnv(Env):
     def fail(self, name, why='', core=True, key=None):
         self._rec(name, False, {'why': why})
 
-    def lemma(self, name, cond):
+    def lemma(self, name, cond, key=None):
         self.holds(name, cond)
+
+    def derive(self, name, cond, hyps, atoms, key=None, lemma=False):
+        self.holds(name, cond, key=key)
 
     @contextlib.contextmanager
     def patch(self, modules, overrides=None, extra=None, sym_extra=None):
@@ -415,6 +435,8 @@ def run_instance(body, params=None, label='', max_paths=256, max_depth=64,
                 rec['vacuous_paths'] += 1
                 continue
         hyps = []          # lemmas proved so far on this path
+        proved_ids = set() # ids of every claim proved so far on this path
+        keep = []
         for cl in env.claims:
             rec['claims'] += 1
             if z3.is_true(z3.simplify(cl.expr)):
@@ -423,13 +445,25 @@ def run_instance(body, params=None, label='', max_paths=256, max_depth=64,
                 core.STATS['unsat'] += 1
             else:
                 res = None
-                if p.pc_weak is not None:
+                if cl.hyps is not None:
+                    # proof-script step: only the listed hypotheses, each of which must be known
+                    known = set(h.get_id() for h in hyps) | set(c.get_id() for c in p.pc) | proved_ids
+                    if all(h.get_id() in known or z3.is_true(z3.simplify(h)) for h in cl.hyps):
+                        r0, _m0 = core.prove_abstract(cl.hyps, cl.expr, cl.atoms, 20000)
+                        if r0 == 'unsat':
+                            res, model = 'unsat', None
+                    else:
+                        rec['errors'].append('derive step %r uses a hypothesis that was not established' % cl.name)
+                if res is None and p.pc_weak is not None:
                     # abstraction ladder: first without the nonlinear defining equations
                     r0, _m0 = core.prove(list(p.pc_weak) + hyps, cl.expr, min(timeout_ms or 60000, 20000))
                     if r0 == 'unsat':
                         res, model = 'unsat', None
                 if res is None:
                     res, model = core.prove(list(p.pc) + hyps, cl.expr, timeout_ms)
+            if res == 'unsat':
+                proved_ids.add(cl.expr.get_id())
+                keep.append(cl.expr)
             if cl.lemma and res == 'unsat':
                 hyps.append(cl.expr)
             rec[res] += 1
@@ -501,6 +535,11 @@ def _confirm(body, params, env, path, cl, model, rel_tol, timeout_ms):
         pinned = dict(vals)
         for k, a in env.actuals.items():
             pinned[k] = fractions.Fraction(repr(float(a)))
+        if env.nominals:
+            nom = dict(pinned)
+            for k, a in env.nominals.items():
+                nom[k] = fractions.Fraction(repr(float(a)))
+            cands.append(('actual-state+nominal-values', nom))
         cands.append(('model+actual-state', pinned))
         # stage B: re-solve with the abstract state pinned to the actual values
         cons = list(path.pc) + [z3.Not(cl.expr)] + [
@@ -512,7 +551,13 @@ def _confirm(body, params, env, path, cl, model, rel_tol, timeout_ms):
                 cands.insert(0, ('resolved-with-actual-state', _model_inputs(m2, env.inputs)))
             except Exception:
                 pass
-    cands.append(('model', vals))
+    if not env.actuals:
+        cands.append(('model', vals))
+    else:
+        # the harness runs from an abstract pre-state (DESIGN 2.5): a counterexample that cannot be
+        # realised with the state the real constructors produce means the invariant is too weak --
+        # it is reported as inconclusive (exit 2), never as a violation
+        out['abstract_only'] = True
     for how, v in cands:
         st, detail = replay_once(body, v, params, cl.name, rel_tol)
         tried.append((how, st))
@@ -520,7 +565,8 @@ def _confirm(body, params, env, path, cl, model, rel_tol, timeout_ms):
             out.update(status='reproduced', how=how, detail=detail, values=v,
                        inputs={k: float(x) for k, x in list(v.items())[:40]})
             return out
-    out.update(status='not_reproduced', why=str(tried), detail=detail)
+    out.update(status='not_reproduced', why=str(tried) + (' (counterexample exists only for an abstract pre-state; '
+               'not realisable with the constructed geometry)' if out.get('abstract_only') else ''), detail=detail)
     return out
 
 
